@@ -31,6 +31,7 @@ def instances(tier, seed):
                     continue
                 add(f"ovl:{pat}:M2:ra={int(ra)}:ign={int(ign)}", pattern=pat, N=4, M=2, replace_all=ra, ignore=ign, cost=10)
     add("ovl:CH->CH-moved:M2", pattern='CH->CH-moved', N=4, M=2, cost=10)
+    add("ovl:CH->CF-common-atom-2e-7-apart:M2", pattern='CH->CF-common-atom-2e-7-apart', N=4, M=2, cost=10)
     add("ovl:CH->CF-ff-labels:M2", pattern='CH->CF-ff-labels', N=4, M=2, cost=10)
     # accepted overlaps on a structure that carries terms: the shared atom is removed once, the terms of all other atoms follow their atoms
     add("ovl:CH->nothing:M2:structure-bond", pattern='CH->nothing', N=5, M=2, terms={'bond': 1}, s_rows={'bond': 2}, cost=400)
